@@ -46,6 +46,11 @@ func runC02c(t *testing.T, r *engine.Run) {
 		return
 	}
 	wd := newWorld(tp, nil)
+	defer func() {
+		if wd.raced {
+			r.Probe("pushrace_tagged_run")
+		}
+	}()
 	wd.collide = 0
 	maxSteps := 10 + tp.Choose(50, "maxsteps")
 	r.Logf("clients=%v throttle=%s debounce=%v", clientNames(w.clients), r.T.Rec[1].L, db)
